@@ -50,7 +50,7 @@ func (unpacker *RtpUnpackerAvcHevc) TryUnpackOne(list *RtpPacketList) (unpackedF
 	case PositionTypeSingle:
 		var pkt base.AvPacket
 		pkt.PayloadType = unpacker.payloadType
-		pkt.Timestamp = int64(first.Packet.Header.Timestamp / uint32(unpacker.clockRate/1000))
+		pkt.Timestamp = int64(uint64(first.Packet.Header.Timestamp) * 1000 / uint64(unpacker.clockRate))
 
 		pkt.Payload = make([]byte, len(first.Packet.Body())+4)
 		bele.BePutUint32(pkt.Payload, uint32(len(first.Packet.Body())))
@@ -71,7 +71,7 @@ func (unpacker *RtpUnpackerAvcHevc) TryUnpackOne(list *RtpPacketList) (unpackedF
 
 		var pkt base.AvPacket
 		pkt.PayloadType = unpacker.payloadType
-		pkt.Timestamp = int64(first.Packet.Header.Timestamp / uint32(unpacker.clockRate/1000))
+		pkt.Timestamp = int64(uint64(first.Packet.Header.Timestamp) * 1000 / uint64(unpacker.clockRate))
 
 		// 跳过前面的字节，并且将多nalu前的2字节长度，替换成4字节长度
 		// skip后：
@@ -125,7 +125,7 @@ func (unpacker *RtpUnpackerAvcHevc) TryUnpackOne(list *RtpPacketList) (unpackedF
 			} else if p.Packet.positionType == PositionTypeFuaEnd {
 				var pkt base.AvPacket
 				pkt.PayloadType = unpacker.payloadType
-				pkt.Timestamp = int64(p.Packet.Header.Timestamp / uint32(unpacker.clockRate/1000))
+				pkt.Timestamp = int64(uint64(p.Packet.Header.Timestamp) * 1000 / uint64(unpacker.clockRate))
 
 				var naluTypeLen int
 				var naluType []byte
